@@ -168,10 +168,31 @@ fn config_value_tag(v: &ConfigValue) -> &'static str {
     }
 }
 
+fn split_program(src: &str) -> J {
+    match varpulis_parser::parse(src) {
+        Ok(p) => {
+            let mut ds = Vec::new();
+            let mut rest = Vec::new();
+            for s in &p.statements {
+                match &s.node {
+                    Stmt::ConnectorDecl { name, connector_type, params } => ds.push(json!({
+                        "name": name, "type": connector_type,
+                        "params": params.iter().map(|p| json!([p.name, config_value_tag(&p.value), config_value_str(&p.value)])).collect::<Vec<_>>()
+                    })),
+                    other => rest.push(strip_spans(serde_json::to_value(other).unwrap_or(json!("unserialisable")))),
+                }
+            }
+            json!({"ok": {"decls": ds, "rest": rest}})
+        }
+        Err(e) => json!({ "err": format!("{}", e) }),
+    }
+}
+
 fn connector(req: &J) -> J {
     let mut map: HashMap<String, ClusterConnector> = HashMap::new();
     let mut valid = Vec::new();
     let mut decls = Vec::new();
+    let mut param_order = Vec::new();
     for c in req["connectors"].as_array().unwrap() {
         let mut params = HashMap::new();
         for kv in c["params"].as_array().unwrap() {
@@ -185,48 +206,18 @@ fn connector(req: &J) -> J {
         };
         valid.push(validate_connector(&cc).is_ok());
         decls.push(cc.to_vpl_declaration());
+        // iteration order of this HashMap instance (the one to_vpl_declaration walks)
+        param_order.push(cc.params.keys().cloned().collect::<Vec<_>>());
         map.insert(cc.name.clone(), cc);
     }
+    let conn_order: Vec<String> = map.values().map(|c| c.name.clone()).collect();
     let source = req["source"].as_str().unwrap();
     let missing = find_missing_connectors(source);
     let (injected, nlines) = inject_connectors(source, &map);
-    // parsed connector declarations of the injected source
-    let parsed = match varpulis_parser::parse(&injected) {
-        Ok(p) => {
-            let mut ds = Vec::new();
-            let mut rest = Vec::new();
-            for s in &p.statements {
-                match &s.node {
-                    Stmt::ConnectorDecl { name, connector_type, params } => ds.push(json!({
-                        "name": name, "type": connector_type,
-                        "params": params.iter().map(|p| json!([p.name, config_value_tag(&p.value), config_value_str(&p.value)])).collect::<Vec<_>>()
-                    })),
-                    other => rest.push(strip_spans(serde_json::to_value(other).unwrap_or(json!("unserialisable")))),
-                }
-            }
-            json!({"ok": {"decls": ds, "rest": rest}})
-        }
-        Err(e) => json!({ "err": format!("{}", e) }),
-    };
-    let orig = match varpulis_parser::parse(source) {
-        Ok(p) => {
-            let mut ds = Vec::new();
-            let mut rest = Vec::new();
-            for s in &p.statements {
-                match &s.node {
-                    Stmt::ConnectorDecl { name, connector_type, params } => ds.push(json!({
-                        "name": name, "type": connector_type,
-                        "params": params.iter().map(|p| json!([p.name, config_value_tag(&p.value), config_value_str(&p.value)])).collect::<Vec<_>>()
-                    })),
-                    other => rest.push(strip_spans(serde_json::to_value(other).unwrap_or(json!("unserialisable")))),
-                }
-            }
-            json!({"ok": {"decls": ds, "rest": rest}})
-        }
-        Err(e) => json!({ "err": format!("{}", e) }),
-    };
-    json!({"valid": valid, "decls": decls, "missing": missing, "injected": injected, "nlines": nlines,
-           "parsed": parsed, "orig": orig})
+    let decl_parsed: Vec<J> = decls.iter().map(|d| split_program(d)).collect();
+    json!({"valid": valid, "decls": decls, "param_order": param_order, "conn_order": conn_order, "missing": missing,
+           "injected": injected, "nlines": nlines, "decl_parsed": decl_parsed,
+           "parsed": split_program(&injected), "orig": split_program(source)})
 }
 
 fn main() {
